@@ -643,6 +643,55 @@ func ruleR3d(c *Ctx) {
 							}
 						}
 					}
+					// every way through the releasing branch resets the counter — also a fast path that answers the
+					// waiting token itself and returns before the distributor call
+					if reset {
+						isReset := func(n ast.Node) bool {
+							as, ok := n.(*ast.AssignStmt)
+							if !ok || as.Tok != token.ASSIGN {
+								return false
+							}
+							for _, l := range as.Lhs {
+								if fieldOf(in, l) == cv {
+									return true
+								}
+							}
+							return false
+						}
+						var body []ast.Stmt
+						// enclosing if whose condition this is: its then-branch; otherwise what follows the guard clause
+						for cur := p.Parent(call); cur != nil && cur != ast.Node(f.Body); cur = p.Parent(cur) {
+							if ifs, ok := cur.(*ast.IfStmt); ok && ifs.Cond == cond {
+								body = ifs.Body.List
+							}
+						}
+						if body == nil {
+							inspectNoLit(f.Body, func(y ast.Node) bool {
+								var list []ast.Stmt
+								switch b := y.(type) {
+								case *ast.BlockStmt:
+									list = b.List
+								case *ast.CaseClause:
+									list = b.Body
+								}
+								for k, st := range list {
+									if ifs, ok := st.(*ast.IfStmt); ok && ifs.Cond == cond && k+1 < len(list) {
+										body = list[k+1:]
+									}
+								}
+								return true
+							})
+						}
+						if len(body) > 0 {
+							if entry, ok := g.EntryOfStmts(body); ok {
+								bad := g.RegionPaths(entry, regionOfStmts(body), isReset)
+								if len(bad) > 0 && !isReset(entry.Node()) {
+									reset = false
+									where = "but a path through the releasing branch leaves without resetting it: " + witnessLines(g, bad)
+								}
+							}
+						}
+					}
 					c.Check(reset, f, call, "release guarded by counter "+cv.Name(),
 						"the counter "+cv.Name()+" that gates the release is re-initialised on the releasing path (after the gating test, before or after the release), so that the next activation counts from scratch",
 						fmt.Sprintf("non-self assignment to %s on the releasing path: %v %s", cv.Name(), reset, where))
